@@ -136,7 +136,7 @@ func runC07(c *eng.Ctx) {
 	if fn := c.Fn("server.(*partitionFailover).Quorum"); fn != nil {
 		ok := false
 		for _, r := range eng.Returns(fn) {
-			ok = eng.Bin(token.QUO, eng.Bin(token.SUB, eng.Call(-1, "server.partition.ISRSize"), eng.IntConst(1)), eng.IntConst(2))(r.Results[0])
+			ok = eng.Bin(token.QUO, eng.Bin(token.SUB, eng.Call(-1, "server.partition.ISRSize"), eng.IntConst(1)), eng.IntConst(2))(eng.RetVals(r)[0])
 		}
 		c.Check(ok, "partition quorum", p.Pos(fn.Pos()), "(ISRSize() - 1) / 2", "partitionFailover.Quorum is not (ISR size - 1) / 2")
 	}
@@ -187,6 +187,10 @@ func runC07(c *eng.Ctx) {
 	c.Rule("R07.9", "K2")
 	ruleISRPersisted(c)
 	c.Floor(2)
+	c.Rule("R07.10", "K4")
+	ruleMembershipGettersHandOutCopies(c)
+	c.Rule("R02.7", "K2")
+	ruleISROpsAlwaysApply(c)
 
 	// ---- R07.5 epochs only grow
 	c.Rule("R07.5", "K1m")
@@ -493,7 +497,7 @@ func ruleCandidate(c *eng.Ctx) {
 	if fn := c.Fn("server.(*metadataAPI).selectPartitionLeader"); fn != nil {
 		ok := false
 		for _, r := range eng.Returns(fn) {
-			ia := indexOfLoad(r.Results[0])
+			ia := indexOfLoad(eng.RetVals(r)[0])
 			ok = ia != nil && eng.Param("replicas")(ia.X)
 		}
 		c.Check(ok, "selection returns an element of its argument", p.Pos(fn.Pos()), "returns replicas[i]", "selectPartitionLeader does not return an element of the candidate list")
